@@ -8,7 +8,8 @@ Driver family `processor` (C01, C02, C13, C14, observation gate of C03).
 Case lines, one per handler call on the real `Processor` (see `harness/processor/proc_verif_test.go`):
 `reset <id> our= govchain= govemitter=` · `set <id> index= keys=` · `msg <id> tx= sec= nsec= nonce= seq= cl= ec= tc= em= pl= dig= sig= srec=`
 · `inj <id> v=<canon> dig= sig= srec=` · `obs <id> addr= hash= sig= tx= rec=` · `inb <id> bytes= [dig= rec=]` · `clean <id> room=` followed by
-`reqs <id> R:..|..`.  Every line carries `now=`, and `res=ok out= st= db=` or `res=panic site=`.
+`reqs <id> R:..|..`.  Every line carries `now=`, and `res=ok out= st= db=` or `res=panic site=`. `st=? db=?` (live mode, see the
+harness): state and store were not observable after this event; only its outputs are compared, the next line carries the state.
 
 For every line the driver (1) replays the model and compares outputs, aggregation summary and store dump (`diff`),
 (2) evaluates the property Specs directly on what the implementation did (`spec <id> <clause>`), independent of the model.
@@ -294,8 +295,12 @@ def step (st : St) (line : String) : St × List String :=
          [s!"spec {id} {clause} {op} handler panicked: {site}"])
       else
         -- ---------- Spec evaluation on the implementation's own results ----------
-        let iSt := parseISt iStS
-        let iDb := parseDb iDbS
+        -- live mode: for an event whose own observation Run handles straight afterwards, state and store at that instant are not
+        -- observable (`st=? db=?`); the Specs then see them unchanged and the comparison is left to the line that follows
+        let unobserved := iStS == "?"
+        let iStS := if unobserved then (if st.prevStS = "?" then "-" else st.prevStS) else iStS
+        let iSt := if unobserved then st.prevSt else parseISt iStS
+        let iDb := if unobserved then st.prevDb else parseDb iDbS
         let st0 := st
         -- history bookkeeping that must precede the publish checks
         let st := match ev with
@@ -355,7 +360,7 @@ def step (st : St) (line : String) : St × List String :=
             else
               -- C03: an observation that fails the gate must leave aggregation state and store untouched
               let st := { st with nRejectedObs := st.nRejectedObs + 1 }
-              if iStS ≠ st0.prevStS ∨ iOut ≠ "-" then
+              if (st0.prevStS ≠ "?" ∧ iStS ≠ st0.prevStS) ∨ iOut ≠ "-" then
                 (st, [s!"spec {id} invalid-observation-changed-state observation failing the signature/address/membership gate changed the node: out={iOut.take 60}"], false)
               else (st, [], false)
           | _ => (st, [], false)
@@ -414,7 +419,7 @@ def step (st : St) (line : String) : St × List String :=
             return (st, errs)
           | _ => (st, [])
         let st := updateLifetimes st now iSt
-        let st := { st with prevSt := iSt, prevStS := iStS, prevDb := iDb }
+        let st := { st with prevSt := iSt, prevStS := if unobserved then "?" else iStS, prevDb := iDb }
         let specErrs := govErr ++ gateErr ++ pubErrs ++ complErr ++ cleanErrs
         -- ---------- model vs implementation ----------
         if st.desync then (st, if specErrs.isEmpty then [] else specErrs.take 1) else
@@ -427,7 +432,10 @@ def step (st : St) (line : String) : St × List String :=
           let st := if op = "clean" then { st with pendingReqs := some (mReq.map showOut, (kvNat rest "room").getD 0) } else st
           if !specErrs.isEmpty then (st, specErrs.take 1)
           else
-            let v := compare id op mNonReq ms iOut iStS iDbS
+            let v := if unobserved then
+                let mo := joinOr "|" (sortStrings (mNonReq.map showOut))
+                if mo ≠ iOut then [s!"diff {id} {op}: outputs model={mo.take 400} impl={iOut.take 400}"] else [s!"ok {id}"]
+              else compare id op mNonReq ms iOut iStS iDbS
             ({ st with desync := v.any (·.startsWith "diff") }, v)
 
 def fin (st : St) : List String :=
